@@ -482,21 +482,30 @@ func coldAlloc(e *ev.Env, c *ev.Case, mk func() *fiber.App, input []byte) (uint6
 // body bytes that actually follow its head (false: no such header, or chunked).
 func realContentLength(raw []byte) ([]byte, bool) {
 	end := bytes.Index(raw, []byte("\r\n\r\n"))
-	if end < 0 {
+	if end < 0 || indexFold(raw[:end+2], "chunked") >= 0 {
 		return nil, false
 	}
-	i := indexFold(raw[:end+2], "content-length:")
-	if i < 0 || indexFold(raw[:end+2], "chunked") >= 0 {
+	real := " " + itoa(len(raw)-(end+4))
+	out := append([]byte(nil), raw[:end]...)
+	found := false
+	for off := 0; ; { // every Content-Length field of the head
+		i := indexFold(out[off:], "content-length:")
+		if i < 0 {
+			break
+		}
+		j := off + i + len("content-length:")
+		k := j
+		for k < len(out) && out[k] != '\n' && !(out[k] == '\r' && (k+1 == len(out) || out[k+1] == '\n')) {
+			k++ // a bare CR inside the value does not end the line
+		}
+		out = append(out[:j], append([]byte(real), out[k:]...)...)
+		off = j + len(real)
+		found = true
+	}
+	if !found {
 		return nil, false
 	}
-	j := i + len("content-length:")
-	k := j
-	for k < end && raw[k] != '\r' {
-		k++
-	}
-	out := append([]byte(nil), raw[:j]...)
-	out = append(out, " "+itoa(len(raw)-(end+4))...)
-	return append(out, raw[k:]...), true
+	return append(out, raw[end:]...), true
 }
 
 // dechunk rewrites the first request in raw from chunked transfer coding to Content-Length framing
@@ -614,6 +623,22 @@ func allocSite(e *ev.Env, c *ev.Case, mk func() *fiber.App, input []byte, limit,
 		// removal leaves (about) what the bare request costs: the component accounts for all of it
 		if !p && d <= base+base/2+32<<10 {
 			full = append(full, f.name)
+		}
+	}
+	// an announced size can only account for a buffer of about that size: when far more was
+	// allocated, rewriting the announcement merely changed how much of the body the server saw
+	if announced := declaredBody(input); total > 2*announced+limit {
+		drop := func(xs []string) []string {
+			var out []string
+			for _, x := range xs {
+				if !strings.HasPrefix(x, "announced-") {
+					out = append(out, x)
+				}
+			}
+			return out
+		}
+		if len(drop(explains)) > 0 {
+			explains, full = drop(explains), drop(full)
 		}
 	}
 	if len(full) == 1 {
